@@ -19,6 +19,9 @@ pub struct C10 {
 }
 
 const SCALARS_PER_PLAN: u64 = 64;
+/// long lines of multi-unit characters at every small offset: a multi-unit character straddles every internal block
+/// boundary (any power-of-two index) for at least one offset
+const STRADDLE_PLANS: u64 = 8 * 5;
 const N_SCALARS: u64 = 0x110000;
 
 impl C10 {
@@ -34,7 +37,7 @@ impl C10 {
         C10 { corpus, trunc_cum }
     }
     fn sweep_plans(&self) -> u64 {
-        N_SCALARS.div_ceil(SCALARS_PER_PLAN)
+        N_SCALARS.div_ceil(SCALARS_PER_PLAN) + STRADDLE_PLANS
     }
     fn trunc_plans(&self, tier: Tier) -> u64 {
         match tier {
@@ -92,8 +95,23 @@ impl Scenario for C10 {
     }
     fn plan(&self, seed: u64, idx: u64, tier: Tier) -> Plan {
         let sw = self.sweep_plans();
+        if idx < STRADDLE_PLANS {
+            let k = (idx % 8) as usize;
+            let unit = ["\u{1F600}", "\u{E9}", "\u{4E0A}", "\u{10FFFF}\u{A0A}", "a\u{1F3FF}"][(idx / 8) as usize];
+            let mut t = String::from("osu file format v14\n\n[Metadata]\nTags:");
+            t.push_str(&"a".repeat(k));
+            t.push_str(&unit.repeat(5000));
+            t.push_str("\nTitle:after\n");
+            let mut p = Plan::new("C10", "equiv", seed, idx);
+            p.data = t.into_bytes();
+            p.set("dec", 3);
+            p.set("t", crate::transport::T_SLICE);
+            p.note = "block-straddle".into();
+            return p;
+        }
         if idx < sw {
-            let mut p = Plan::new("C10", "scalar-sweep", seed, idx);
+            let idx = idx - STRADDLE_PLANS;
+            let mut p = Plan::new("C10", "scalar-sweep", seed, idx + STRADDLE_PLANS);
             p.set("from", (idx * SCALARS_PER_PLAN) as i64);
             p.set("count", SCALARS_PER_PLAN as i64);
             return p;
